@@ -225,7 +225,7 @@ std::string gen_bool_literal(Rng &r)
 
 std::string gen_comment(Rng &r, bool)
 {
-	static const char *words[] = {"note", "x = 1", "{", "}", "\"", "'", "todo: fix", "a/b", "**", "#", "$", ""};
+	static const char *words[] = {"note", "x = 1", "{", "}", "\"", "'", "todo: fix", "a/b", "**", "#", "$", "", "", ""};
 	std::string body = words[r.below(sizeof(words) / sizeof(words[0]))];
 	if (r.chance(1, 10)) {
 		// lengths around multiples of the scanner's 32-byte scratch-buffer growth step
